@@ -14,7 +14,7 @@ JsonBodies == { O(<<"q">>, <<Num(4)>>), O(<<"q">>, <<S(<<"x">>)>>), O(<<"q", "w"
                 O(<<"q", "r">>, <<Num(4), S(<<"s">>)>>), O(<<>>, <<>>), Arr(<<Num(4)>>) }
 TextBodies == { S(<<"a">>), S(<<"a", "b", "c">>) }
 (* bytes that are not the encoding of any JSON value *)
-RawBodies == { [t |-> "raw", s |-> "{\"q\":"] }
+RawBodies == { [t |-> "raw", s |-> "{\"q\":"], [t |-> "raw", s |-> ""] }       \* truncated; no bytes at all
 
 CTs == { [absent |-> TRUE], Json, MT("application", "json", "charset=utf-8"), MT("text", "plain", ""),
          MT("application", "problem+json", "") }      \* a structured-suffix type is a media type of its own
@@ -25,6 +25,11 @@ Init ==
         /\ bk \in ks                                   \* the body carries the marker of a declared entry
         /\ case = [part |-> "pick", keys |-> SetToSortSeq(ks, LAMBDA a, b : TRUE), status |-> st, method |-> m,
                    includeStatus |-> inc, bodyKey |-> bk]
+   \* options and header rules crossed with the selection: see ResponseCheck!PickAccepts
+   \/ \E ks \in KeySets, st \in {200, 204, 304, 404, 500, 600}, m \in {"GET", "HEAD"}, inc \in BOOLEAN, bk \in Keys, pv \in {"xb", "reqhdr"} :
+        /\ bk \in ks /\ Cardinality(ks) <= 2
+        /\ case = [part |-> "pick", keys |-> SetToSortSeq(ks, LAMBDA a, b : TRUE), status |-> st, method |-> m,
+                   includeStatus |-> inc, bodyKey |-> bk, pv |-> pv]
    \/ \E hd \in {"objExp", "objNoExp"}, hv \in {"absent", "5", "abc", "1,2", "a=1,b=2", "a=1,b=9", "b=2", "a,1,b,2", "a,1,b,9", "b,2"},
          mu \in BOOLEAN, ct \in {Json} :
         case = [part |-> "def", hd |-> hd, hv |-> hv, decl |-> "json", ct |-> ct, req |-> "qw", ctText |-> Render(ct),
